@@ -12,19 +12,22 @@ Three groups of obligations (DESIGN §3 C13):
     BOUNDED (every tree shape of a stated grammar up to a stated size, texts symbolic; never counted as proved) for all
     walkers -- contracts/C13_bounded.py;
 (c) PROVED typed values: xlsx `_get_cell_value`, xls `_get_cell_value(s)`, `_format_date_tuple`.
+(d) round 7, PROVED: the xlsx used-range helpers `_is_cell_non_empty`, `_is_meaningful_value`, `_find_last_data_row`,
+    `_find_last_data_column` (symbolic sheet) and `iterate_tables` of the content classes with one list of tables (any number of
+    tables; ghost sequence of the yielded values).  The loop-shaped ones are shape-gated (`_gate`): complementary to the bounded walkers.
 """
 import ast
 
 import z3
 
 from pyvc import loader, ops
-from pyvc.contracts import FnContract, LoopSpec, Raises
+from pyvc.contracts import FnContract, LoopSpec, Raises, Registry
 from pyvc.state import HeapObj
 from pyvc.symex import Executor
 from pyvc.values import NONE, V, VBool, VExt, VFunc, VInt, VReal, VRef, VSeq, VStr, VTuple, VType, VUnk, ext_sort, fresh_name
 from pyvc.verify import Maker, p_bool, p_ext, p_int, p_obj, p_str, p_unk
 from contracts import etree_model as ET
-from contracts.symlist import SymListMixin, is_max, seq_eq, take, vite, seq_of_items, OVER
+from contracts.symlist import SymListMixin, is_max, seq_eq, take, vite, seq_of_items, concat, OVER
 
 DT = "sharepoint2text/parsing/extractors/data_types.py"
 PPTX = "sharepoint2text/parsing/extractors/ms_modern/pptx_extractor.py"
@@ -124,6 +127,86 @@ class C13Executor(SymListMixin, ET.ETreeMixin, Executor):
                 return []
             return [(st, VReal(z3.RealVal(f"{fr.numerator}/{fr.denominator}")))]
         return super().construct(st, t, args, kwargs, node)
+
+    # ---- round 7 (xlsx trimming loops): a descending range with symbolic bounds, any()/all() over a symbolic sequence
+    def b_range(self, st, args, kwargs, node):
+        if len(args) == 3 and isinstance(args[2], VInt) and args[2].const() == -1 and all(isinstance(a, VInt) for a in args) \
+                and (args[0].const() is None or args[1].const() is None):
+            lo, hi = ops.int_term(args[0]), ops.int_term(args[1])
+            return [(st, VSeq(z3.If(lo - hi < 0, z3.IntVal(0), lo - hi), lambda i, lo=lo: VInt(lo - i), "int"))]
+        return super().b_range(st, args, kwargs, node)
+
+    def _quant_bools(self, st, v, is_any):
+        s = v if isinstance(v, VSeq) else (self.as_seq(st, v) if isinstance(v, VRef) and st.obj(v.ref).kind == "slist" else None)
+        if s is None or getattr(s, "tag", None) is not None:
+            return None
+        k = z3.Int(fresh_name("qk"))
+        e = s.elem(k)
+        if isinstance(e, VExt) and e.sort == "PyVal":
+            e = self.truth(st, e)
+        if not isinstance(e, VBool):
+            return None
+        rng = z3.And(k >= 0, k < s.length)
+        return VBool(z3.Exists([k], z3.And(rng, e.t)) if is_any else z3.ForAll([k], z3.Implies(rng, e.t)))
+
+    # ---- round 7 (iterate_tables): the values a generator yields, as a symbolic sequence in the ghost state (pack-local; the engine's
+    # own `yielded` list cannot carry a symbolic number of yields).  Active only when the contract's parameter maker created the ghost.
+    def on_yield(self, st, v, node):
+        cur = st.ghost.get(YSEQ)
+        if cur is not None:
+            st.ghost[YSEQ] = seq_append(cur, yield_key(st, v))
+        return super().on_yield(st, v, node)
+
+    def e_YieldFrom(self, n, st):
+        if st.ghost.get(YSEQ) is None:
+            return super().e_YieldFrom(n, st)
+        out = []
+        for (s, v) in self.ev(n.value, st):
+            items = self.concrete_items(s, v)
+            if items is not None:
+                s.yielded = s.yielded + items
+                for x in items:
+                    s.ghost[YSEQ] = seq_append(s.ghost[YSEQ], yield_key(s, x))
+            else:
+                self.on_yield_from(s, v, n)
+            out.append((s, NONE))
+        return out
+
+    def on_yield_from(self, st, gen, node):
+        cur = st.ghost.get(YSEQ)
+        src = self.as_seq(st, gen) if cur is not None and isinstance(gen, (VSeq, VRef)) else None
+        if src is not None and getattr(src, "tag", None) is None:
+            # `yield from <sequence>`: every element of the sequence, in order
+            mapped = VSeq(src.length, lambda i, src=src, st=st: yield_key(st, src.elem(i)), "C13Table")
+            n0 = z3.simplify(cur.length)
+            st.ghost[YSEQ] = cat(cur, mapped)
+            return None
+        if cur is not None:
+            raise_unsupported(f"{self.loc(node)} yield from a generator of unknown length (iterate_tables contract)")
+        return super().on_yield_from(st, gen, node)
+
+    def havoc_loop_state(self, st, body, spec, extra_names=()):
+        super().havoc_loop_state(st, body, spec, extra_names)
+        if st.ghost.get(YSEQ) is not None and self._has_yield(body):
+            from contracts.symlist import fresh_seq
+            val, wf = fresh_seq(("list", ("ext", "C13Table")), "yielded")
+            st.ghost[YSEQ] = val
+            for c in wf:
+                st.assume(c)
+
+    def truth(self, st, v):
+        # an abstract cell value may be falsy (None, 0, False, '') -- independent of being an empty cell (0 is data, ' ' is not)
+        if isinstance(v, VExt) and v.sort == "PyVal":
+            return VBool(TRUTHY(v.t))
+        return super().truth(st, v)
+
+    def b_any(self, st, args, kwargs, node):
+        r = self._quant_bools(st, args[0], True) if len(args) == 1 and self.concrete_items(st, args[0]) is None else None
+        return [(st, r)] if r is not None else super().b_any(st, args, kwargs, node)
+
+    def b_all(self, st, args, kwargs, node):
+        r = self._quant_bools(st, args[0], False) if len(args) == 1 and self.concrete_items(st, args[0]) is None else None
+        return [(st, r)] if r is not None else super().b_all(st, args, kwargs, node)
 
     def to_str(self, st, v, formatted=False):
         if isinstance(v, VExt) and v.sort == "TimeDelta" and not formatted:
@@ -695,20 +778,22 @@ def xls_native_ok(c, res, branch):
     return z3.BoolVal(True)       # error cells: no value to keep (reported as None / "#ERROR")
 
 
+def p_xlsx_value():
+    """a cell value as openpyxl hands it out"""
+    def mk(ex, st, name):
+        alts = [(None, NONE), (None, VStr(z3.String(f"{name}_s"))), (None, VInt(z3.Int(f"{name}_i"))), (None, VReal(z3.Real(f"{name}_f"))),
+                (None, VBool(z3.Bool(f"{name}_b")))]
+        for k in ("DateTime", "Date", "Time", "TimeDelta"):
+            alts.append((None, VExt(k, z3.Const(f"{name}_{k}", ext_sort(k)))))
+        return alts
+    return Maker(mk, desc="None | str | int | float | bool | datetime | date | time | timedelta")
+
+
 def value_contracts(reg):
     install_value_models(reg)
     out = []
 
     # ---- xlsx: datetime/date/time -> ISO text, everything else (None, str, int, float, bool, timedelta, error text) unchanged
-    def p_xlsx_value():
-        def mk(ex, st, name):
-            alts = [(None, NONE), (None, VStr(z3.String(f"{name}_s"))), (None, VInt(z3.Int(f"{name}_i"))), (None, VReal(z3.Real(f"{name}_f"))),
-                    (None, VBool(z3.Bool(f"{name}_b")))]
-            for k in ("DateTime", "Date", "Time", "TimeDelta"):
-                alts.append((None, VExt(k, z3.Const(f"{name}_{k}", ext_sort(k)))))
-            return alts
-        return Maker(mk, desc="None | str | int | float | bool | datetime | date | time | timedelta")
-
     def xlsx_post(c):
         v, r = c.args["cell_value"], c.result
         if isinstance(v, VExt) and v.sort in ISO:
@@ -742,6 +827,264 @@ def value_contracts(reg):
             raises=[], inline=True,
             note="number -> int when integral, bool, date -> ISO text (statement); as_string=False for _get_cell_value"))
     return out
+
+
+# ============================================================ iterate_tables (round 7) ==
+YSEQ = "c13!yielded"
+TABLE = ext_sort("C13Table")                                  # a stored table (grid or sheet object) of a content object
+N_STORED = z3.Int("n_stored_tables")
+STORED = z3.Function("stored_table", I, TABLE)
+
+
+def raise_unsupported(msg):
+    from pyvc.symex import Unsupported
+    raise Unsupported(msg)
+
+
+def cat(a: VSeq, b: VSeq):
+    n = z3.simplify(a.length)
+    return b if z3.is_int_value(n) and n.as_long() == 0 else concat(a, b)
+
+
+def seq_append(s: VSeq, x):
+    n = z3.simplify(s.length)
+    if z3.is_int_value(n) and n.as_long() == 0:
+        return seq_of_items([x])
+    return VSeq(s.length + 1, lambda i, s=s, x=x: vite(i < s.length, s.elem(i), x), "sym")
+
+
+def yield_key(st, v):
+    """what a yielded value stands for: the stored table itself, or the stored grid inside a fresh TableData(data=grid)"""
+    if isinstance(v, VExt) and v.sort == "C13Table":
+        return VExt("C13Table", WRAPPED(v.t, z3.BoolVal(False)))
+    if isinstance(v, VRef):
+        o = st.obj(v.ref)
+        d = o.data.get("data") if o.kind == "obj" and o.cls == "TableData" and isinstance(o.data, dict) else None
+        if isinstance(d, VExt) and d.sort == "C13Table":
+            return VExt("C13Table", WRAPPED(d.t, z3.BoolVal(True)))
+    raise_unsupported(f"iterate_tables yields {v!r}: neither a stored table nor TableData(data=<stored grid>)")
+
+
+WRAPPED = z3.Function("yielded_table", TABLE, B, TABLE)       # (stored item, wrapped in a fresh TableData?) -- injective by construction below
+
+
+def iterate_tables_contracts(reg):
+    """`iterate_tables()` of every content class that stores tables: the generator yields EVERY stored table exactly once, in storage order
+    (units in order, tables of a unit in order), none invented -- for any number of tables / units (loop invariant: the yielded sequence is
+    the prefix of the stored sequence).  Grid-storing classes yield TableData(data=grid), sheet-storing classes the sheet object itself;
+    which of the two a class does is read from its field annotations (list[list[list..]] = grids)."""
+    m = loader.module(DT)
+    out = []
+    for q, fnode in sorted(m.functions.items()):
+        if not q.endswith(".iterate_tables") or q.count(".") != 1:
+            continue
+        cls = q.split(".")[0]
+        fors = sorted([n for n in ast.walk(fnode) if isinstance(n, (ast.For, ast.While))], key=lambda n: (n.lineno, n.col_offset))
+        if len(fors) > 1:
+            # units with tables (pptx / odp / pdf / epub: nested loops) stay with the bounded walker w_iter.  A contract over the flattened
+            # sequence (prefix sums OFF(i+1) = OFF(i) + ntables(unit i) as a quantified definition) proves in milliseconds, but a broken
+            # body then costs 4 x 60 s of solver time-outs (sat direction of the quantified definition): not worth it in the quick tier.
+            continue
+        flds = sorted({n.attr for n in ast.walk(fnode) if isinstance(n, ast.Attribute) and isinstance(n.value, ast.Name) and n.value.id == "self"
+                       and _field_is_grid_list(m, cls, n.attr) is not None})
+        if len(flds) != 1:
+            continue            # no stored tables (`yield from ()`), or something this contract does not describe
+        fld = flds[0]
+        wrapped = _field_is_grid_list(m, cls, fld)
+
+        def p_stored():
+            def mk(ex, st, name):
+                st.ghost[YSEQ] = seq_of_items([])
+                alts = [(N_STORED >= 0, VSeq(N_STORED, lambda k: VExt("C13Table", STORED(k)), "C13Table"))]
+                for n in (0, 1, 2):
+                    ref = st.alloc(HeapObj("list", [VExt("C13Table", STORED(z3.IntVal(k))) for k in range(n)], fresh=False), ex.refs)
+                    alts.append((N_STORED == n, VRef(ref)))
+                return alts
+            return Maker(mk, desc="list of stored tables, every length")
+
+        def spec(wrapped=wrapped):
+            return VSeq(N_STORED, lambda k: VExt("C13Table", WRAPPED(STORED(k), z3.BoolVal(wrapped))), "C13Table")
+
+        def post(c, spec=spec):
+            got = c.st.ghost.get(YSEQ)
+            return seq_eq(got, spec()) if isinstance(got, VSeq) else z3.BoolVal(False)
+
+        def inv(lc, spec=spec):
+            got = lc.st.ghost.get(YSEQ)
+            return seq_eq(got, take(spec(), lc.i)) if isinstance(got, VSeq) else z3.BoolVal(False)
+        out.append(FnContract(target=f"{DT}::{q}", params=[("self", p_obj(cls, {fld: p_stored()}))],
+                              ensures=[("yields-every-stored-table-once-in-order-none-invented", post)], raises=[],
+                              loops={0: LoopSpec(inv=inv, label="stored-tables")} if fors else {},
+                              note=f"any number of stored tables in self.{fld}; yields " + ("TableData(data=grid)" if wrapped else "the stored table object")))
+    return out
+
+
+def _field_is_grid_list(m, cls, fld):
+    """True: the field stores grids (list[list[list[..]]]) that must be wrapped in TableData; False: it stores table objects; None: unknown"""
+    cnode = m.classes.get(cls) if hasattr(m, "classes") else None
+    if cnode is None:
+        cnode = next((n for n in ast.walk(m.tree) if isinstance(n, ast.ClassDef) and n.name == cls), None) if hasattr(m, "tree") else None
+    if cnode is None:
+        return None
+    for stmt in cnode.body:
+        if isinstance(stmt, ast.AnnAssign) and isinstance(stmt.target, ast.Name) and stmt.target.id == fld:
+            txt = ast.unparse(stmt.annotation).replace("typing.", "").replace("List", "list")
+            if txt.lower().startswith("list[list[list["):
+                return True
+            if txt.lower().startswith("list[") and not txt.lower().startswith("list[list"):
+                return False
+    return None
+
+
+# ============================================================ xlsx trimming (round 7) ==
+# `_read_sheet_data` cuts the sheet to its used range with these helpers: the SHAPE of every xlsx table depends on them.
+TRUTHY = z3.Function("py_truth", PYVAL, B)                  # bool(v) of an abstract cell value (unconstrained: all four combinations with cell_non_empty exist)
+NONEMPTY = z3.Function("cell_non_empty", PYVAL, B)          # spec predicate on an abstract cell value: not None and not a blank string
+
+
+def nonempty_spec(v):
+    """statement: a cell is empty when it holds no value or only white space; every other value (0, False, dates ...) is data"""
+    if isinstance(v, VExt) and v.sort == "PyVal":
+        return NONEMPTY(v.t)                               # (call-site view on an abstract cell: the predicate the verified contract defines per type)
+    if v is NONE:
+        return z3.BoolVal(False)
+    if isinstance(v, VStr):
+        from contracts import C13_bounded as Bm
+        return Bm.mk_strip(v.t) != z3.StringVal("")
+    return z3.BoolVal(True)
+
+
+def meaningful_spec(v):
+    if v is NONE:
+        return z3.BoolVal(False)
+    if isinstance(v, VStr):
+        from contracts import C13_bounded as Bm
+        return z3.And(Bm.mk_strip(v.t) != z3.StringVal(""), z3.Not(z3.PrefixOf(z3.StringVal("Unnamed: "), v.t)))
+    return z3.BoolVal(True)
+
+
+def row_nonempty(row):
+    if not isinstance(row, VSeq):
+        return z3.BoolVal(False)                           # (only reached for the sheet without rows)
+    j = z3.Int("j!rne")
+    e = row.elem(j)
+    return z3.Exists([j], z3.And(j >= 0, j < row.length, nonempty_spec(e)))
+
+
+def xlsx_trim_contracts(reg):
+    from contracts import C13_bounded as Bm
+    Bm.install_str_models(reg)
+    m = loader.module(XLSX)
+    out = []
+
+    def bool_post(spec, pname):
+        def post(c):
+            r = c.result
+            if not isinstance(r, VBool):
+                c.note = "result is not a bool"
+                return z3.BoolVal(False)
+            return r.t == spec(c.args[pname])
+        return post
+    for fn, spec, label in (("_is_cell_non_empty", nonempty_spec, "non-empty-iff-a-value-that-is-not-blank-text"),
+                            ("_is_meaningful_value", meaningful_spec, "meaningful-iff-a-value-that-is-neither-blank-nor-an-Unnamed-placeholder")):
+        fnode = m.functions.get(fn)
+        if fnode is None or len(fnode.args.args) != 1:
+            continue
+        pname = fnode.args.args[0].arg
+        out.append(FnContract(target=f"{XLSX}::{fn}", params=[(pname, p_xlsx_value())],
+                              ensures=[(label, bool_post(spec, pname))], returns=lambda c, spec=spec, pname=pname: VBool(spec(c.args[pname])),
+                              raises=[], note="VERIFIED on every cell type; at call sites on an abstract cell value (PyVal) the result is the spec predicate "
+                                              "cell_non_empty(v), which this contract defines type by type"))
+
+    # ---- _find_last_data_row: 1-based index of the last row that holds a non-empty cell, 0 when there is none (rows of EVERY length)
+    fq = "_find_last_data_row"
+    fnode = m.functions.get(fq)
+    if fnode is not None and len(fnode.args.args) == 1:
+        pname = fnode.args.args[0].arg
+
+        def rows_of(c):
+            return c.ex.as_seq(c.entry, c.args[pname])
+
+        def post_last(c):
+            t, r = rows_of(c), c.result
+            if t is None or not isinstance(r, VInt):
+                c.note = "result is not an int"
+                return z3.BoolVal(False)
+            k = z3.Int("k!last")
+            res = ops.int_term(r)
+            return z3.And(res >= 0, res <= t.length,
+                          z3.Implies(res > 0, row_nonempty(t.elem(res - 1))),
+                          z3.ForAll([k], z3.Implies(z3.And(k >= res, k < t.length), z3.Not(row_nonempty(t.elem(k))))))
+
+        def inv_tail(lc):
+            t = lc.ex.as_seq(lc.entry, lc.old(pname))
+            if t is None:
+                return z3.BoolVal(False)
+            k = z3.Int("k!tail")
+            return z3.ForAll([k], z3.Implies(z3.And(k >= t.length - lc.i, k < t.length), z3.Not(row_nonempty(t.elem(k)))))
+        # the invariant belongs to a loop that walks the row indices downwards (`for .. in range(.., .., -1)`); any other loop shape gets
+        # none: the postcondition is then undecided on the symbolic sheet and the native replay decides (never a false alarm)
+        fors = sorted([n for n in ast.walk(fnode) if isinstance(n, (ast.For, ast.While))], key=lambda n: (n.lineno, n.col_offset))
+        down = len(fors) == 1 and isinstance(fors[0], ast.For) and isinstance(fors[0].iter, ast.Call) and isinstance(fors[0].iter.func, ast.Name) \
+            and fors[0].iter.func.id == "range" and len(fors[0].iter.args) == 3 and isinstance(fors[0].iter.args[2], ast.UnaryOp) \
+            and isinstance(fors[0].iter.args[2].op, ast.USub) and isinstance(fors[0].iter.args[2].operand, ast.Constant) and fors[0].iter.args[2].operand.value == 1
+        out.append(FnContract(target=f"{XLSX}::{fq}", params=[(pname, p_grid())],
+                              ensures=[("last-row-with-a-non-empty-cell-zero-when-none", post_last)], raises=[],
+                              loops={0: LoopSpec(inv=inv_tail, label="rows-from-the-end")} if down else {},
+                              note="symbolic sheet: every number of rows, every row length; every row after the result is empty, the result's row is not"))
+    # ---- _find_last_data_column: 1-based index of the last column that holds a non-empty cell in SOME row, 0 when there is none
+    fq = "_find_last_data_column"
+    fnode = m.functions.get(fq)
+    lv = loop_vars(XLSX, fq)
+    if fnode is not None and len(fnode.args.args) == 1 and len(lv) == 2 and lv[0]["target"]:
+        pname, rowv = fnode.args.args[0].arg, lv[0]["target"]
+        fors = sorted([n for n in ast.walk(fnode) if isinstance(n, (ast.For, ast.While))], key=lambda n: (n.lineno, n.col_offset))
+        accs = sorted({t.id for n in ast.walk(fors[1]) if isinstance(n, ast.Assign) for t in n.targets if isinstance(t, ast.Name)})
+        if len(accs) == 1 and _down_range(fors[1]):
+            acc = accs[0]
+
+            def widest(t, m_, n):
+                """m_ is the last data column of the first n rows of t"""
+                k, j, k2 = z3.Int("k!col"), z3.Int("j!col"), z3.Int("k!wit")
+                ne = lambda kk, jj: nonempty_spec(t.elem(kk).elem(jj)) if isinstance(t.elem(kk), VSeq) else z3.BoolVal(False)
+                ln = lambda kk: _rowlen(t.elem(kk))
+                return z3.And(m_ >= 0,
+                              z3.ForAll([k, j], z3.Implies(z3.And(k >= 0, k < n, j >= m_, j < ln(k)), z3.Not(ne(k, j)))),
+                              z3.Implies(m_ > 0, z3.Exists([k2], z3.And(k2 >= 0, k2 < n, m_ <= ln(k2), ne(k2, m_ - 1)))))
+
+            def post_col(c):
+                t, r = c.ex.as_seq(c.entry, c.args[pname]), c.result
+                if t is None or not isinstance(r, VInt):
+                    c.note = "result is not an int"
+                    return z3.BoolVal(False)
+                return widest(t, ops.int_term(r), t.length)
+
+            def inv_outer(lc):
+                t, a = lc.ex.as_seq(lc.entry, lc.old(pname)), lc[acc]
+                return widest(t, ops.int_term(a), lc.i) if t is not None and isinstance(a, VInt) else z3.BoolVal(False)
+
+            def inv_inner(lc):
+                row, a, a0 = lc[rowv], lc[acc], lc.old(acc)
+                if not isinstance(row, VSeq) or not isinstance(a, VInt) or not isinstance(a0, VInt):
+                    return z3.BoolVal(False)
+                # the accumulator only grows, and when it grew it points just behind a non-empty cell of this row; no non-empty cell of
+                # this row at or after max(accumulator, columns not looked at yet)   (holds with and without the `break`)
+                j = z3.Int("j!tailc")
+                at, at0 = ops.int_term(a), ops.int_term(a0)
+                return z3.And(at >= at0,
+                              z3.Or(at == at0, z3.And(at >= 1, at <= row.length, nonempty_spec(row.elem(at - 1)))),
+                              z3.ForAll([j], z3.Implies(z3.And(j >= row.length - lc.i, j >= at, j < row.length), z3.Not(nonempty_spec(row.elem(j))))))
+            out.append(FnContract(target=f"{XLSX}::{fq}", params=[(pname, p_grid())],
+                                  ensures=[("last-column-with-a-non-empty-cell-in-some-row-zero-when-none", post_col)], raises=[],
+                                  loops={0: LoopSpec(inv=inv_outer, label="rows"), 1: LoopSpec(inv=inv_inner, label="cells-from-the-end")},
+                                  note="symbolic sheet, ragged rows: no row has a non-empty cell at or after the result, some row has one just before it"))
+    return out
+
+
+def _down_range(f):
+    return isinstance(f, ast.For) and isinstance(f.iter, ast.Call) and isinstance(f.iter.func, ast.Name) and f.iter.func.id == "range" \
+        and len(f.iter.args) == 3 and isinstance(f.iter.args[2], ast.UnaryOp) and isinstance(f.iter.args[2].op, ast.USub) \
+        and isinstance(f.iter.args[2].operand, ast.Constant) and f.iter.args[2].operand.value == 1
 
 
 # ============================================================ (b) symbolic shape ==
@@ -1252,6 +1595,37 @@ def _guarded(f, reg):
         return []
 
 
+SHAPE_GATED = ("xlsx_extractor.py::_find_last_data_row", "xlsx_extractor.py::_find_last_data_column", ".iterate_tables")
+LOCK_OPTIONAL_FUNCTIONS = SHAPE_GATED
+
+
+def _gate(cs, reg):
+    """Round-7 contracts whose invariants are tied to a loop shape are COMPLEMENTARY to the bounded walkers (w_xlsx, w_iter), which stay and
+    stay locked.  Such a contract is kept only while it is decided on the present code: every obligation proved (counted as discharged)
+    or some obligation refuted (a violation like any other).  When an edit takes the function out of the shape (solver unknown /
+    out-of-subset / engine limitation) the contract claims nothing -- no UNDECIDED noise; the bounded walker and the native replay decide."""
+    import os
+    from pyvc import verify
+    from pyvc.exctypes import Universe
+    keep = []
+    for c in cs:
+        if not any(k in c.target for k in SHAPE_GATED):
+            keep.append(c)
+            continue
+        try:
+            probe = Registry()
+            probe.__dict__.update({k: (dict(v) if isinstance(v, dict) else v) for k, v in reg.__dict__.items()})
+            for c2 in cs:
+                probe.fn.setdefault(c2.target, c2)
+            rep = verify.run_contract("C13", c, probe, Universe(loader.REPO), executor_cls=C13Executor, timeout_ms=5000)
+            sts = [o["status"] for o in rep.obligations]
+            if rep.error is None and not rep.out_of_subset and sts and ("refuted" in sts or all(x == "proved" for x in sts)):
+                keep.append(c)
+        except Exception:  # noqa
+            pass
+    return keep
+
+
 def contracts(reg):
     from contracts.symlist import register_over
     register_over()
@@ -1259,6 +1633,7 @@ def contracts(reg):
     out = []
     out += dim_contracts(reg)
     out += value_contracts(reg)
+    out += _gate(_guarded(xlsx_trim_contracts, reg) + _guarded(iterate_tables_contracts, reg), reg)
     out += pptx_contracts(reg)
     out += _guarded(docx_contracts, reg)
     out += rtf_contracts(reg)
@@ -1619,6 +1994,10 @@ ASSUMED_MODELS = ["xml.etree.ElementTree.Element (contracts/etree_model.py): tag
                   "evaluated by the real library; bisect_left/right on an ascending list = partition point",
                   "text renderers _format_sheet_as_text / _format_table_as_text, ods _extract_annotations / _extract_images (not part of the grid)"]
 ASSUMPTIONS = ["PY-COMP: a comprehension / generator expression with a total effect-free element over a sequence is the element-wise image",
+               "PY-GEN-SEQ: the values a generator yields, in order, are what a consumer of iterate_tables() receives (ghost sequence c13!yielded; "
+               "`yield from seq` yields every element of seq in order); a fresh TableData(data=g) stands for the stored grid g",
+               "PY-ANY: any(it) / all(it) over a sequence of bools = exists / for all elements; range(a, b, -1) = a, a-1, .., b+1; bool(v) of an abstract cell value "
+               "is an unconstrained predicate (independent of the cell being empty: 0 / False are data, ' ' is not)",
                "PY-MAX: max(it, default=d) is d for an empty iterable, else an upper bound that is attained",
                "PY-FLOAT-REAL (finite floats as reals; float('<literal>') exact)", "TREE-FINITE",
                "ISO text = ISO 8601 / RFC 3339 profile (date and time separated by 'T' or a space)",
@@ -1631,9 +2010,11 @@ ASSUMPTIONS = ["PY-COMP: a comprehension / generator expression with a total eff
 BOUNDED = ["walkers docx _extract_tables_from_context, odt _extract_tables, odp _extract_table, pptx _extract_table_from_graphic_frame, html _process_node(+_extract_table,_find_nodes), "
            "epub table state machine: every document of the grammar in contracts/C13_bounded.py (1..2 tables, <= 2 x 2 ragged, cells with 0..2 paragraphs, one nested table of depth 1, "
            "header-rows wrapper), paragraph texts symbolic",
-           "sheet builders xlsx _read_content_from_workbook(+_read_sheet_data,_is_table_name_row), xls _read_content + XlsSheet.get_table, ods _extract_sheet: sheets of 1..3 rows x 1..2 columns "
+           "sheet builders xlsx _read_content_from_workbook(+_read_sheet_data,_is_table_name_row; its callees _is_cell_non_empty, _is_meaningful_value, "
+           "_find_last_data_row, _find_last_data_column are ALSO under a discharged symbolic contract since round 7), xls _read_content + XlsSheet.get_table, ods _extract_sheet: sheets of 1..3 rows x 1..2 columns "
            "over the cell kinds empty/text/int/float/bool/date, duplicate and empty first-row names; values symbolic (xls/xlsx first-row names and ods typed literals concrete)",
-           "iterate_tables of every content class: 0..3 stored tables on 0..3 units",
+           "iterate_tables of every content class: 0..3 stored tables on 0..3 units (since round 7 the classes that store their tables in one list -- doc, docx, html, "
+           "odt, rtf, xls, xlsx, ods -- are ALSO under a discharged contract for any number of tables; the unit-structured ones pptx / odp / pdf / epub only here)",
            "rtf _RtfParser._extract_tables (+ _extract_table_cells, _save_table, _strip_rtf_simple, _remove_ignorable_groups): concrete RTF sources -- rectangular tables "
            "up to 3 x 2, empty / two-paragraph cells, two tables separated by running text, rows newline-separated or back to back (quick: 2 layouts, thorough: 4)",
            "html / epub documents are fed as parser events through the real handlers (_HtmlTreeBuilder, _XhtmlTextExtractor), including empty cells in self-closed form"]
